@@ -7,6 +7,7 @@ from fractions import Fraction
 import numpy as np
 
 from mc.engine import Clause, Res
+from mc import layouts as _layouts
 from mc import synth
 
 from ibldsp import voltage
@@ -322,5 +323,6 @@ CHECK = {
         Clause("both-rules", "amplitude rule and slew rule met by different channels at the same sample", cases=both_cases, check=both_check),
         Clause("mute", "all flag patterns of length <= 12 x taper widths, four data realisations each", cases=mute_cases, check=mute_check),
         Clause("range", "Reader.range_volts = full-scale / gain for every probe kind", cases=range_cases, check=range_check),
+        _layouts.make_clause(__import__("checks._layout_specs", fromlist=["x"]).c16()),
     ],
 }
